@@ -1,6 +1,7 @@
 /- `HashSet` operations of the line protocol (`coll=set`). -/
 import Hb.Driver.Base
 import Hb.Model.Set
+import Hb.Model.SetPanic
 namespace Hb.Driver
 open Hb
 
@@ -117,6 +118,8 @@ def execSetOp (st : DState) (env : Env) (name : String) (args : List String) (ot
   | "self_bitand", [] => opForm (Set.bitand cfg env w.t w)
   | "self_bitxor", [] => opForm (Set.bitxor cfg env w.t w)
   | "self_sub", [] => opForm (Set.sub cfg env w.t w)
+  | "get_or_insert_with_panic", [k] =>
+    no <| resOut (Set.getOrInsertWithPanic cfg env (nat! k) w) (fun b => if b then "present" else "absent") w
   | "bitor_assign", [] => no <| resOutW (Set.bitorAssign cfg env other w) w
   | "bitand_assign", [] => no <| resOutW (Set.bitandAssign cfg env other w) w
   | "bitxor_assign", [] => no <| resOutW (Set.bitxorAssign cfg env other w) w
